@@ -828,21 +828,44 @@ func copyVal(v value) value {
 	return v
 }
 
-// growCap mirrors the shape of Go's append growth (doubling below 256,
-// then 1.25x); exact capacities are not part of the language.
-func growCap(old, need int) int {
-	c := old
-	if c == 0 {
-		c = need
-	}
-	for c < need {
-		if c < 256 {
-			c *= 2
-		} else {
-			c += c/4 + 192
+// Go's malloc size classes (runtime/sizeclasses.go), used to reproduce the
+// capacity append() really allocates: programs can observe it through
+// reslicing into spare capacity.
+var sizeClasses = []int{0, 8, 16, 24, 32, 48, 64, 80, 96, 112, 128, 144, 160, 176, 192, 208, 224, 240, 256, 288, 320, 352, 384, 416, 448, 480, 512, 576, 640, 704, 768, 896, 1024, 1152, 1280, 1408, 1536, 1792, 2048, 2304, 2688, 3072, 3200, 3456, 4096, 4864, 5376, 6144, 6528, 6784, 6912, 8192, 9472, 9728, 10240, 10880, 12288, 13568, 14336, 16384, 18432, 19072, 20480, 21760, 24576, 27264, 28672, 32768}
+
+func roundupsize(n int) int {
+	if n <= 32768 {
+		for _, c := range sizeClasses {
+			if c >= n {
+				return c
+			}
 		}
 	}
-	return c
+	// large objects: rounded up to the page size
+	return (n + 8191) &^ 8191
+}
+
+// growCap reproduces runtime.growslice (Go 1.20+): the capacity of the slice
+// append allocates for newLen elements of elemSize bytes.
+func growCap(oldCap, newLen, elemSize int) int {
+	newcap := oldCap
+	doublecap := newcap + newcap
+	if newLen > doublecap {
+		newcap = newLen
+	} else {
+		const threshold = 256
+		if oldCap < threshold {
+			newcap = doublecap
+		} else {
+			for newcap < newLen {
+				newcap += (newcap + 3*threshold) >> 2
+			}
+		}
+	}
+	if elemSize <= 0 {
+		return newcap
+	}
+	return roundupsize(newcap*elemSize) / elemSize
 }
 
 func (m *Machine) minV(x, y value) value { return m.minmax(x, y, true) }
